@@ -359,8 +359,8 @@ fn apply(st: &Stmt, idx: usize, devs: &mut [DevModel; 4], f: &mut Features, mode
                         }
                         match &v.alt {
                             Some(alt) => {
-                                // only ever generated as the last item of a newline-terminated statement
-                                assert!(i + 1 == args.len());
+                                // renderings of different lengths are only ever generated as the last item of a newline-terminated statement
+                                assert!(i + 1 == args.len() || alt.len() == v.out.len());
                                 d.alt(vec![v.out.clone(), alt.clone()], idx);
                             }
                             None => d.text(&v.out, idx),
@@ -907,6 +907,18 @@ impl<'a, 'b> Gen<'a, 'b> {
             2 => (1, 6, 999_999),
             _ => (1, 9, 999_999_999),
         };
+        if ty >= 2 && self.t.chance(1, 10) {
+            // a negative zero (the negation of a zero variable, zero times a negative number): a zero like any other - it is
+            // written with a leading space (or, with its sign, as -0) and a trailing space
+            let sfx = if ty == 2 { "!" } else { "#" };
+            let name = self.var(sfx);
+            let src = match self.t.choose(3) {
+                0 => format!("-{}", name),
+                1 => format!("{} * -3.5{}", name, if ty == 2 { "" } else { "#" }),
+                _ => format!("-2.5{} * {}", if ty == 2 { "" } else { "#" }, name),
+            };
+            return Val { src, pre: Some(format!("{} = 0", name)), out: b" 0 ".to_vec(), alt: Some(b"-0 ".to_vec()), numeric: true };
+        }
         let nd = self.t.range(lo_d as i64, hi_d as i64) as usize;
         let lo = if nd == 1 { 0 } else { pow10(nd - 1) };
         let lo = if ty == 1 { lo.max(32768) } else { lo };
@@ -1850,7 +1862,7 @@ impl Prop for C16 {
         "C16"
     }
     fn rule(&self) -> &'static str {
-        "Random histories of 1-12 statements (PRINT / LPRINT / PRINT #1, / PRINT #2,; one in four is PRINT USING) decoded from a proptest tape: item lists of up to 8 entries over INTEGER, LONG, SINGLE, DOUBLE integral numbers of either sign, strings of length 0-30 (empty, with embedded CR / LF / CRLF built with CHR$), strings sized so that the column before a comma lands on 12,13,14,15,27,28,29,41,42,43, separators ; and , in every position (leading, trailing, consecutive), a non-integral number only as the last item of a newline-terminated statement, values as literals or through variables; PRINT USING formats of 1-4 fields (# runs, # runs with one ., thousands commas as #,### ##,### ###,### #,###,###, \\ \\ of width 2-8, !) with literal text around them and 1-6 values (fewer and more than fields), the values separated by ; only, by , only or by a mix of both (one statement in three each), optionally with a trailing ; or , ; SINGLE / DOUBLE values of numeric fields are ordinary (first discarded digit 1,2,3,6,7,8), or (1 in 6) an exact rounding tie (x.5 for a field without decimals, k/2^(d+1) with k odd for a field with d decimals - binary-exact in both types), or (1 in 6) a negative value that rounds to zero. The model written from the statement gives the expected bytes of screen, LPT1 and both files. A history is NON-TRIVIAL when a statement continues on a device at a carried column > 0, or a comma is met at column >= 12, or a comma follows an embedded CR/LF on the same line, or a USING format is reused cyclically, or a PRINT USING value list holds a comma, or a PRINT USING value is an exact rounding tie; distinct by hash of the program text. Plus the complete enumeration of all two-statement histories (each statement any grammatical list of <= 2 (quick) / <= 4 (thorough) entries over the alphabet { ; , -7 \"ABCDEFGHIJKLMN\" \"xy\"+CHR$(13)+\"z\" \"\" }, all 16 device pairs), run in batches of 64 pairs per program."
+        "Random histories of 1-12 statements (PRINT / LPRINT / PRINT #1, / PRINT #2,; one in four is PRINT USING) decoded from a proptest tape: item lists of up to 8 entries over INTEGER, LONG, SINGLE, DOUBLE integral numbers of either sign (one SINGLE / DOUBLE in ten a negative zero: -Z, Z * -3.5, -2.5 * Z with Z = 0; expected ' 0 ', '-0 ' tolerated), strings of length 0-30 (empty, with embedded CR / LF / CRLF built with CHR$), strings sized so that the column before a comma lands on 12,13,14,15,27,28,29,41,42,43, separators ; and , in every position (leading, trailing, consecutive), a non-integral number only as the last item of a newline-terminated statement, values as literals or through variables; PRINT USING formats of 1-4 fields (# runs, # runs with one ., thousands commas as #,### ##,### ###,### #,###,###, \\ \\ of width 2-8, !) with literal text around them and 1-6 values (fewer and more than fields), the values separated by ; only, by , only or by a mix of both (one statement in three each), optionally with a trailing ; or , ; SINGLE / DOUBLE values of numeric fields are ordinary (first discarded digit 1,2,3,6,7,8), or (1 in 6) an exact rounding tie (x.5 for a field without decimals, k/2^(d+1) with k odd for a field with d decimals - binary-exact in both types), or (1 in 6) a negative value that rounds to zero. The model written from the statement gives the expected bytes of screen, LPT1 and both files. A history is NON-TRIVIAL when a statement continues on a device at a carried column > 0, or a comma is met at column >= 12, or a comma follows an embedded CR/LF on the same line, or a USING format is reused cyclically, or a PRINT USING value list holds a comma, or a PRINT USING value is an exact rounding tie; distinct by hash of the program text. Plus the complete enumeration of all two-statement histories (each statement any grammatical list of <= 2 (quick) / <= 4 (thorough) entries over the alphabet { ; , -7 \"ABCDEFGHIJKLMN\" \"xy\"+CHR$(13)+\"z\" \"\" }, all 16 device pairs), run in batches of 64 pairs per program."
     }
     fn assumptions(&self) -> Vec<&'static str> {
         vec![
